@@ -513,6 +513,11 @@ func run() int {
 				if all {
 					g.Status = "discharged"
 					g.Solver = "other-mode:" + os2[0].Solver
+					g.TimeS = 0
+					for _, o := range os2 {
+						g.TimeS += o.TimeS
+					}
+					g.TimeS += 1000 // marker: first encoding timed out; the remainder is the deciding encoding's time
 					intDischarged++
 				} else if bad != nil {
 					g.Status = "failed"
